@@ -3,7 +3,8 @@
    are the same code centrally and distributed and are checked against an independent reference
    by the correspondence run; this file is about the aggregation algebra. *)
 From Coq Require Import Permutation.
-From DT Require Import Lib.Bytes Model.C05_Mapr Proofs.C05_Mapr Proofs.C05_Order.
+From Coq Require Import Sorting.Sorted.
+From DT Require Import Lib.Bytes Model.C05_Mapr Proofs.C05_Mapr Proofs.C05_Order Model.C05_Pipeline Proofs.C05_Pipeline.
 
 (* However the records are cut into chunks - servers x files x serialisation intervals, any
    number and any sizes, empty chunks included - aggregating every chunk where it lives, sending
@@ -44,6 +45,40 @@ Theorem C05_order : forall (ops : list aop) (chunks chunks' : list (list record)
   gget (distributed true ops chunks) k = gget (distributed true ops chunks') k.
 Proof. exact distributed_order. Qed.
 Print Assumptions C05_order.
+
+(* The whole pipeline.  Lines, not records: whatever the line-local steps do (log format parsing, the where filter,
+   the set-assignments, the group key - [prep] is ANY function of the single line), however the lines are spread over
+   servers, files and partial-result transmissions: group by group the distributed run holds what the central
+   evaluation over all lines holds, ... *)
+Theorem C05_lines : forall (line : Type) (prep : line -> option record) (ops : list aop) (chunks : list (list line)) (k : bytes),
+  gget (distributed_lines line prep ops chunks) k = gget (central_lines line prep ops (concat chunks)) k.
+Proof. exact @lines_distributed_is_central. Qed.
+Print Assumptions C05_lines.
+
+(* ... and the result tables are the same: for ANY ordering relation (order by / rorder by any column; rows the
+   relation does not separate may stand either way - the choice among tied rows) and any limit, a table is a possible
+   result of the distributed run iff it is a possible result of the central evaluation.  A result table = the groups
+   that have samples, sorted, cut at the limit. *)
+Theorem C05_pipeline : forall (line : Type) (prep : line -> option record) (before : row -> row -> Prop)
+                              (ops : list aop) (chunks : list (list line)) (limit : option nat) (rows : list row),
+  is_result before (distributed_lines line prep ops chunks) limit rows
+  <-> is_result before (central_lines line prep ops (concat chunks)) limit rows.
+Proof. exact @pipeline. Qed.
+Print Assumptions C05_pipeline.
+
+(* non-vacuity: lines (group, number); where number >= 0; set number := 2 * number; select sum, order by sum, limit 1 *)
+Example C05_pipeline_example :
+  let prep := fun l : bytes * Z => if (snd l <? 0)%Z then None else Some (fst l, [Some {| v_raw := []; v_num := Some (2 * snd l)%Z |}]) in
+  let key := fun r : row => match a_cells (snd r) with c :: _ => match c_f c with Some z => z | None => 0%Z end | [] => 0%Z end in
+  let before := fun a b : row => (key b <= key a)%Z in
+  let chunks := [[(B"a", 1000%Z); (B"b", 5000%Z)]; []; [(B"a", (-7000)%Z); (B"a", 3000%Z)]] in
+  exists s, is_result before (distributed_lines _ prep [OSum] chunks) (Some 1) [(B"b", s)] /\ a_cells s = [{| c_f := Some 10000%Z; c_s := None |}].
+Proof.
+  cbv zeta. exists {| a_samples := 1; a_cells := [{| c_f := Some 10000%Z; c_s := None |}] |}. split; [|reflexivity].
+  exists [(B"b", {| a_samples := 1; a_cells := [{| c_f := Some 10000%Z; c_s := None |}] |}); (B"a", {| a_samples := 2; a_cells := [{| c_f := Some 8000%Z; c_s := None |}] |})].
+  split; [vm_compute; apply perm_swap|]. split; [|reflexivity].
+  repeat constructor; cbn; lia.
+Qed.
 
 Example C05_example :
   let v s n := Some {| v_raw := s; v_num := n |} in
